@@ -219,17 +219,19 @@ func applyWrite(buf []byte, off int64, p []byte) []byte {
 // ---------- running a history ----------
 
 type regionRun struct {
-	mode   string // backing file: mem (no Truncate method) | memt (with Truncate) | file (real *os.File)
-	crash  bool   // region.crash: physical operations are recorded and every crash image is examined
-	cuts   int    // crash mode: max number of 512-byte cuts per write (0 = all)
-	mf     *memFile
-	rws    io.ReadWriteSeeker // what the Region is given
-	path   string
-	osf    *os.File
-	r      *region.Region
-	rec    []wrec
-	truth  map[int]truthCell // idx = 32*z + x, last successfully written payload
-	failed bool              // region could not be (re)opened: remaining ops report "dead"
+	mode    string // backing file: mem (no Truncate method) | memt (with Truncate) | file (real *os.File)
+	crash   bool   // region.crash: physical operations are recorded and every crash image is examined
+	viaOpen bool   // region.crash: every crash image is ALSO written to a real file and re-opened through region.Open
+	reloads int    // region.hist mode=file: number of re-opens so far (they alternate between Open and OpenFile+Load)
+	cuts    int    // crash mode: max number of 512-byte cuts per write (0 = all)
+	mf      *memFile
+	rws     io.ReadWriteSeeker // what the Region is given
+	path    string
+	osf     *os.File
+	r       *region.Region
+	rec     []wrec
+	truth   map[int]truthCell // idx = 32*z + x, last successfully written payload
+	failed  bool              // region could not be (re)opened: remaining ops report "dead"
 }
 
 type truthCell struct {
@@ -392,7 +394,8 @@ func (rr *regionRun) open() {
 // reopen re-opens the backing file from offset 0 (file: Close + a fresh *os.File, like region.Open).
 func (rr *regionRun) reopen() (*region.Region, error) {
 	if rr.mode == "file" {
-		if !rr.crash {
+		rr.reloads++
+		if !rr.crash && rr.reloads%2 == 1 {
 			return region.Open(rr.path)
 		}
 		f, err := os.OpenFile(rr.path, os.O_RDWR, 0o666)
@@ -400,7 +403,10 @@ func (rr *regionRun) reopen() (*region.Region, error) {
 			return nil, err
 		}
 		rr.osf = f
-		rr.rws = &c15RecFile{f: f, rec: &rr.rec}
+		rr.rws = f
+		if rr.crash {
+			rr.rws = &c15RecFile{f: f, rec: &rr.rec}
+		}
 		r, err := region.Load(rr.rws)
 		if err != nil {
 			_ = f.Close()
@@ -519,6 +525,11 @@ func (rr *regionRun) crashCheck(pre []byte, ws []wrec, idx int) (points, bad, wo
 			if !others(r) {
 				ok = false
 			}
+			// the other entry point: the image as a real file, re-opened through region.Open; it must succeed and
+			// agree with Load (same chunks readable with the same bytes, same absences)
+			if rr.viaOpen && !c15ViaOpen(img, func(r *region.Region) bool { return others(r) && written(r) == w }) {
+				ok = false
+			}
 		})
 		if st != "" || !ok {
 			bad++
@@ -540,6 +551,22 @@ func (rr *regionRun) crashCheck(pre []byte, ws []wrec, idx int) (points, bad, wo
 		check(append([]byte(nil), cur...))
 	}
 	return
+}
+
+// c15ViaOpen writes a crash image to a real file in the check's work directory, re-opens it through region.Open and
+// runs check on the Region; the file is removed afterwards. false if Open fails.
+func c15ViaOpen(img []byte, check func(*region.Region) bool) bool {
+	path := regionPath() + ".img"
+	defer os.Remove(path)
+	if err := os.WriteFile(path, img, 0o666); err != nil {
+		return false
+	}
+	r, err := region.Open(path)
+	if err != nil {
+		return false
+	}
+	defer r.Close()
+	return check(r)
 }
 
 // ageTimestamps rewrites the timestamp table of a file image as an older file would have it: one day is subtracted
@@ -760,13 +787,17 @@ func runRegion(c *Ctx, op string, head string, ops string) {
 			defer c14RemoveFile(rr.path)
 		}
 	case "region.crash":
-		// head: cuts=<n|all>[:mem|memt|file]
+		// head: cuts=<n|all>[:mem|memt|file[:reopen=load|open]]
 		rr.crash = true
 		rr.mode = "mem"
 		v := strings.TrimPrefix(head, "cuts=")
 		if i := strings.IndexByte(v, ':'); i >= 0 {
 			rr.mode = v[i+1:]
 			v = v[:i]
+			if j := strings.IndexByte(rr.mode, ':'); j >= 0 {
+				rr.viaOpen = rr.mode[j+1:] == "reopen=open"
+				rr.mode = rr.mode[:j]
+			}
 		}
 		if v != "all" {
 			rr.cuts, _ = strconv.Atoi(v)
@@ -1002,6 +1033,13 @@ func genC15(c *Ctx) {
 			mode = ":memt"
 		case p < 12:
 			mode = ":file" // a real file under the check's work directory, wrapped to record its physical operations
+		}
+		// crash images are always re-opened with Load on the in-memory image; with reopen=open also through
+		// region.Open on a real file (always for mode=file, a third of the in-memory histories)
+		if mode == ":file" || c.R.Intn(3) == 0 {
+			mode += ":reopen=open"
+		} else {
+			mode += ":reopen=load"
 		}
 		runRegion(c, "region.crash", "cuts="+cuts+mode, genRegionOps(c, nops, false, maxK, true))
 	}
